@@ -16,7 +16,14 @@
 (* Time is counted in integer quanta (the harness uses a quantum of 0.5 s, exact in floats);   *)
 (* the stack's stamper is the clock and advances only through the environment action Advance.  *)
 (*                                                                                             *)
+(* send(m) "Setup and transmit packet" and transmit(m) "Queue pkt on stack packet queue" hand   *)
+(* a further message of the running exchange to the stack; by the class docstring .tx is the    *)
+(* "latest/next transmitted msg/pkt/data" and by C38 the redo retransmits the latest message,   *)
+(* so either way m becomes the latest message and later retransmissions carry m.                *)
 (* Not decided by the documentation, hence not decided here:                                   *)
+(*   - whether a further send / transmit begins a new redo interval: Send and Transmit are      *)
+(*     offered only at the stamp at which the current redo interval began, where both readings  *)
+(*     coincide;                                                                                *)
 (*   - polling an exchange that is not started or already done (Process is not offered then);  *)
 (*   - a redo interval of zero: whether it disables retransmission or fires on every poll;     *)
 (*     transmissions made by Process while redo = 0 are neither demanded nor forbidden (the    *)
@@ -41,7 +48,7 @@ VARIABLES tset, rset,       \* the settings handed to the constructor: [k |-> "n
           last,             \* message carried by the latest transmission (0: none yet)
           lastAt,           \* when it was transmitted (history)
           starts,           \* number of starts so far
-          res               \* what the last step did: "new" | "advance" | "start" | "idle" | "redo" | "fail" | "finish"
+          res               \* what the last step did: "new" | "advance" | "start" | "send" | "transmit" | "idle" | "redo" | "fail" | "finish"
 vars == <<tset, rset, timeout, redo, now, tstart, rstart, started, done, failed, tx, sent, last, lastAt, starts, res>>
 config == <<tset, rset, timeout, redo>>
 
@@ -70,6 +77,19 @@ Start(m) == /\ (~started \/ done) /\ starts < MaxStarts
             /\ starts' = starts + 1 /\ res' = "start"
             /\ UNCHANGED <<config, now>>
 
+\* send(m) / transmit(m): a further message of the running exchange goes out and becomes the latest one
+\* (both written out so that TLC labels the steps Send(m) / Transmit(m))
+Send(m) ==
+    /\ started /\ ~done /\ now = rstart
+    /\ SerialMsgs => (tx < 10 /\ m = 10 * tx + 1)
+    /\ tx' = m /\ sent' = sent + 1 /\ last' = m /\ lastAt' = now /\ res' = "send"
+    /\ UNCHANGED <<config, now, tstart, rstart, started, done, failed, starts>>
+Transmit(m) ==
+    /\ started /\ ~done /\ now = rstart
+    /\ SerialMsgs => (tx < 10 /\ m = 10 * tx + 2)
+    /\ tx' = m /\ sent' = sent + 1 /\ last' = m /\ lastAt' = now /\ res' = "transmit"
+    /\ UNCHANGED <<config, now, tstart, rstart, started, done, failed, starts>>
+
 TimedOut == timeout > 0 /\ now - tstart >= timeout
 RedoDue == redo > 0 /\ now - rstart >= redo
 
@@ -92,6 +112,8 @@ Finish == /\ started /\ ~done
 
 Next == \/ \E dt \in Steps : Advance(dt)
         \/ \E m \in 1..MaxStarts : Start(m)
+        \/ \E m \in {11, 21, 31, 41} : Send(m)
+        \/ \E m \in {12, 22, 32, 42} : Transmit(m)
         \/ Process
         \/ Finish
 Spec == Init /\ [][Next]_vars
@@ -102,7 +124,9 @@ SettingsResolved == /\ timeout = (IF tset.k = "none" THEN DefTimeout ELSE tset.v
                     /\ redo = (IF rset.k = "none" THEN DefRedo ELSE rset.v)
 Running == started /\ ~done
 \* retransmissions carry the latest message and are at least a redo interval after the previous transmission
-NoEarlyRedo == [][(Running /\ sent' = sent + 1) => (redo > 0 /\ now - lastAt >= redo /\ last' = tx /\ Running')]_vars
+NoEarlyRedo == [][(Running /\ sent' = sent + 1 /\ res' \notin {"send", "transmit"}) => (redo > 0 /\ now - lastAt >= redo /\ last' = tx /\ Running')]_vars
+\* whatever went out last is the latest message, and a redo repeats exactly it
+LatestIsLast == (started /\ sent > 0) => last = tx
 \* a poll never leaves a whole redo interval unanswered while the exchange keeps running
 RedoWhenDue == (Running /\ res \in {"idle", "redo"} /\ redo > 0) => now - lastAt < redo
 \* and answers it once
